@@ -7,7 +7,7 @@ from symx.runner import job
 META = dict(
     bounds=dict(
         quick="formats xyz (default and user-defined atom columns), pdb, mol2, sdf, poscar (lower-triangular cell), cube "
-              "(grids 1x1x1, 2x3x4, 1x1x7), fcidump (n=1,2; 8-fold symmetric non-zero integrals); 1-3 atoms fully symbolic "
+              "(grids 1x1x1, 2x3x4 - also in column-major memory order and as a transposed view -, 1x1x7), fcidump (n=1,2; 8-fold symmetric non-zero integrals); 1-3 atoms fully symbolic "
               "and boundary sizes (100, 1000, 10000/12000 atoms where a counter fills its column) with two symbolic probe "
               "atoms and concrete filler; element pairs from {1,8},{2,118},{10,11},{99,100},{6,17} (one job per "
               "topology format with every element 1..118); optional attributes "
@@ -34,7 +34,7 @@ META = dict(
 SIZES = dict(json=[1, 3], wfn=[2], wfx=[2], molden=[2], molekel=[2], fchk=[2], xyz=[1, 3, 1000], pdb=[1, 3, 1000, 12000], mol2=[1, 3, 1000], sdf=[1, 3, 100, 999], poscar=[1, 3, 12],
              cube=[1, 2], fcidump=[1, 2])
 VARIANTS = dict(json=["full", "bare"], wfn=["full", "bare", "uhf", "unsorted"], wfx=["full", "bare", "uhf", "ecp", "unsorted"], molden=["full", "bare", "uhf", "ecp", "unsorted"], molekel=["full", "bare", "uhf", "unsorted"], fchk=["wf-own", "wf-horton2", "wf-revflip", "uhf", "rohf", "post", "corenums", "bare", "geom", "nomo", "lotblank"], xyz=["default", "columns"], pdb=["default", "full", "bonds", "star"], mol2=["default", "full", "bonds"],
-                sdf=["default", "bonds"], poscar=["lower"], cube=["111", "234", "117"], fcidump=["sym"])
+                sdf=["default", "bonds"], poscar=["lower"], cube=["111", "234", "117", "234F", "234T"], fcidump=["sym"])
 
 
 def jobs(tier, prop="C02", M="harness.rt"):
